@@ -19,13 +19,27 @@ inductive CfiReg where
   | cfa | ra | other (name : String)
   deriving DecidableEq, Repr
 
+/-! The lexer works on the characters of a line (`String.toList`) with structural recursion only,
+    so that it also reduces inside the kernel: C04's non-vacuity examples evaluate the
+    precondition — which tokenizes the rule text of concrete records — by `decide`. -/
+
+def isWs (c : Char) : Bool := c = ' ' || c = '\t' || c = '\n' || c = '\r' || c = '\x0c'
+
+/-- `cur` = the characters of the piece being read, reversed -/
+def splitWsAux : List Char → List Char → List (List Char)
+  | [], cur => if cur.isEmpty then [] else [cur.reverse]
+  | c :: rest, cur =>
+    if isWs c then (if cur.isEmpty then splitWsAux rest [] else cur.reverse :: splitWsAux rest [])
+    else splitWsAux rest (c :: cur)
+
+/-- `split_ascii_whitespace`, on characters -/
+def splitWsL (cs : List Char) : List (List Char) := splitWsAux cs []
+
 /-- `split_ascii_whitespace` -/
-def splitWs (s : String) : List String :=
-  (s.split (fun c => c = ' ' ∨ c = '\t' ∨ c = '\n' ∨ c = '\r' ∨ c = '\x0c')).toList.map (·.toString) |>.filter (· ≠ "")
+def splitWs (s : String) : List String := (splitWsL s.toList).map String.ofList
 
 /-- `i64::from_str`, result as the `u64` bit pattern (`value as u64`) -/
-def parseI64 (s : String) : Option Nat :=
-  let cs := s.toList
+def parseI64L (cs : List Char) : Option Nat :=
   let (neg, ds) : Bool × List Char :=
     match cs with
     | '-' :: t => (true, t)
@@ -36,6 +50,8 @@ def parseI64 (s : String) : Option Nat :=
     let v := ds.foldl (fun acc c => acc * 10 + (c.toNat - '0'.toNat)) 0
     if neg then (if v ≤ 2 ^ 63 then some ((2 ^ 64 - v) % 2 ^ 64) else none)
     else (if v < 2 ^ 63 then some v else none)
+
+def parseI64 (s : String) : Option Nat := parseI64L s.toList
 
 /-! ### tokens
 
@@ -58,24 +74,30 @@ inductive ETok where
   deriving DecidableEq, Repr
 
 /-- the `match token { … }` of `eval_cfi_expr`, in the code's order -/
-def classify (tok : String) : ETok :=
-  if tok = "+" then .add
-  else if tok = "-" then .sub
-  else if tok = "*" then .mul
-  else if tok = "/" then .div
-  else if tok = "%" then .rem
-  else if tok = "@" then .align
-  else if tok = "^" then .deref
-  else if tok = ".cfa" then .cfa
-  else if tok = ".undef" then .undef
-  else if tok.contains '$' then .dollar (String.ofList ((tok.toList.dropWhile (· ≠ '$')).drop 1))
-  else match parseI64 tok with
+def classifyL (tok : List Char) : ETok :=
+  if tok = ['+'] then .add
+  else if tok = ['-'] then .sub
+  else if tok = ['*'] then .mul
+  else if tok = ['/'] then .div
+  else if tok = ['%'] then .rem
+  else if tok = ['@'] then .align
+  else if tok = ['^'] then .deref
+  else if tok = ['.', 'c', 'f', 'a'] then .cfa
+  else if tok = ['.', 'u', 'n', 'd', 'e', 'f'] then .undef
+  else if tok.contains '$' then .dollar (String.ofList ((tok.dropWhile (· ≠ '$')).drop 1))
+  else match parseI64L tok with
     | some v => .lit v
-    | none => .bare tok
+    | none => .bare (String.ofList tok)
 
-def mkCfiReg (tok : String) : CfiReg :=
-  if tok = ".cfa" then .cfa else if tok = ".ra" then .ra
-  else if tok.startsWith "$" then .other (tok.drop 1).toString else .other tok
+def classify (tok : String) : ETok := classifyL tok.toList
+
+def mkCfiRegL (tok : List Char) : CfiReg :=
+  if tok = ['.', 'c', 'f', 'a'] then .cfa else if tok = ['.', 'r', 'a'] then .ra
+  else match tok with
+    | '$' :: t => .other (String.ofList t)
+    | _ => .other (String.ofList tok)
+
+def mkCfiReg (tok : String) : CfiReg := mkCfiRegL tok.toList
 
 /-- a token of a rule set: `REG:` or an expression token -/
 inductive RTok where
@@ -83,11 +105,13 @@ inductive RTok where
   | tok (t : ETok)
   deriving DecidableEq, Repr
 
-def classifyR (tok : String) : RTok :=
-  if tok.endsWith ":" then .label (mkCfiReg (tok.dropEnd 1).toString) else .tok (classify tok)
+def classifyRL (tok : List Char) : RTok :=
+  if tok.getLast? = some ':' then .label (mkCfiRegL tok.dropLast) else .tok (classifyL tok)
+
+def classifyR (tok : String) : RTok := classifyRL tok.toList
 
 /-- the classified tokens of a `STACK CFI` rule text -/
-def tokenize (line : String) : List RTok := (splitWs line).map classifyR
+def tokenize (line : String) : List RTok := (splitWsL line.toList).map classifyRL
 
 def ruleSet (out : List (CfiReg × List ETok)) (r : CfiReg) (e : List ETok) : List (CfiReg × List ETok) :=
   match out with
